@@ -667,6 +667,23 @@ func runC07E2E(c *Ctx, emit func(gen string, in, obs Term, nt bool, tags ...stri
 			run("e2e-"+sh.name, e)
 		}
 	}
+	// (1b) profiles of different builds (round 5 shapes) through the three entry points
+	e2eBuilds := map[string]bool{"moved-code-sum": true, "moved-code-base": true, "shifted-start-diff-base": true, "inline-vs-plain-base": true}
+	for _, kind := range kinds {
+		for _, sh := range c07BuildsShapes() {
+			if !e2eBuilds[sh.name] {
+				continue
+			}
+			e := &c07E2E{kind: kind, t: sh.t}
+			for i := range sh.t.srcs {
+				e.srcNames = append(e.srcNames, []string{"build-new.prof", "build-old.prof", "b3.prof"}[i])
+			}
+			for i := range sh.t.bases {
+				e.baseNames = append(e.baseNames, []string{"base-old.prof", "base2.prof"}[i])
+			}
+			run("e2e-builds-"+sh.name, e)
+		}
+	}
 	// (2) random tuples x random names x the three entry points
 	modes := []struct {
 		nbase          int
